@@ -122,8 +122,15 @@ Definition level_prefix (G : omen) (j : nat) (c : cache) (T : Z) :=
 
 (* k pre-terminals are generated in full, the (k+1)-th popped is a Markov level;
    the quit flag is seen after its j-th guess (j >= 1: the flag is polled after
-   each printed guess).  c = the Optimizer's memo table when the level starts. *)
-Definition interrupted pop (g : sgram) (k j : nat) (c : cache) : cut_outcome :=
+   each printed guess).  c = the Optimizer's memo table when the level starts.
+   [check_after_pop] = where the session loop tests the quit flag
+   (gen/Consts_gen.v: session_quit_check_after_pop, extracted from the source):
+     true  (the code): `pt_item = self.pqueue.next()` first, then
+           `if self.pcfg.should_exit: _save_session(); break` -- the saved
+           max_probability is that of the pop that FOLLOWS the level;
+     false: the test at the top of the loop -- max_probability is still the
+           level's own (PcfgQueue.next set it when the level was popped). *)
+Definition interrupted (check_after_pop : bool) pop (g : sgram) (k j : nat) (c : cache) : cut_outcome :=
   let rs := sg_rs g in
   let s := run pop rs k (start rs) in
   match pop (pending s) with
@@ -139,11 +146,13 @@ Definition interrupted pop (g : sgram) (k j : nat) (c : cache) : cut_outcome :=
               if negb (Nat.leb 1 j && Nat.eqb (length l) j) then NotMarkov   (* fewer than j strings *)
               else
                 let out := stream g (rev (emitted s)) ++ l in
-                match pop q1 with                    (* pqueue.next(): the pop that FOLLOWS *)
-                | None => NotSaved out
-                | Some (y, _) =>                     (* max_probability = y's; then the quit check saves *)
-                    Saved out (mk_sfile (iprob y) (sess_quit sess_empty true j (mc_save st)))
-                end
+                let cfg := sess_quit sess_empty true j (mc_save st) in
+                if check_after_pop then
+                  match pop q1 with                  (* pqueue.next(): the pop that FOLLOWS *)
+                  | None => NotSaved out
+                  | Some (y, _) => Saved out (mk_sfile (iprob y) cfg)   (* max_probability = y's; then the quit check saves *)
+                  end
+                else Saved out (mk_sfile (iprob x) cfg)
           end
       end
   end.
@@ -185,8 +194,11 @@ Definition resumed_session (strict cleared : bool) pop (g : sgram) (f : session_
   end.
 
 Definition resumed_pops (r : resumed_run) : list (item A) := rev (emitted (rr_queue r)).
-Definition resumed_out (g : sgram) (r : resumed_run) : list str :=
-  rr_rest r ++ stream g (resumed_pops r).
+(* [omen_first] = restore_omen is called before the session loop (the code;
+   gen/Consts_gen.v: session_omen_restored_before_loop) or after it *)
+Definition resumed_out (omen_first : bool) (g : sgram) (r : resumed_run) : list str :=
+  if omen_first then rr_rest r ++ stream g (resumed_pops r)
+  else stream g (resumed_pops r) ++ rr_rest r.
 
 (* ---------------- a queue that follows an observed order ---------------- *)
 (* heapq's order inside a group of equal probability is not modelled; the
